@@ -870,6 +870,22 @@ def shard_index_last(repo, col):
                         isinstance(item.optional_vars, ast.Name):
                     fp = item.optional_vars.id
                     with_stmt = st
+                elif isinstance(c, ast.Call) and \
+                        isinstance(item.optional_vars, ast.Name):
+                    # a helper of the package that returns the file opened
+                    # for writing
+                    from .core import resolve_local_call as _rl
+                    h_ = _rl(fn, c)
+                    if h_ is not None and any(
+                            isinstance(r_, ast.Return) and
+                            isinstance(r_.value, ast.Call) and
+                            (call_name(r_.value) or "").split(".")[-1] == "open"
+                            and any("'wb'" in norm(a_) or "'w" in norm(a_)
+                                    for a_ in r_.value.args[1:] +
+                                    [k_.value for k_ in r_.value.keywords])
+                            for r_ in stmts_of(h_.node)):
+                        fp = item.optional_vars.id
+                        with_stmt = st
     if fp is None:
         raise AnalysisError("anchor vanished: `with open(..., 'wb') as fp` in "
                             "%s" % fn.key)
